@@ -171,6 +171,7 @@ def NodeOK (g : Graph) (i : Nat) (nd : Node) : Prop :=
   | .alias src idx =>
     src < i ∧ ∃ es name k, (g.kindOf src).instExports = some es ∧ exportsAt es idx = some (name, k) ∧
       nd.prov = .exportOf (g.provOf src) name ∧ nd.item = k
+  | .defn name => nd.prov = .defn name
 
 structure GraphWF (g : Graph) : Prop where
   edges : ∀ e ∈ g.edges, e.src < g.nodes.length ∧ e.dst < g.nodes.length
@@ -192,6 +193,7 @@ theorem NodeOK.ext {g g' : Graph} (h : Ext g g') {i : Nat} {nd : Node} (hi : i <
     obtain ⟨hs, es, name, k, h1, h2, h3, h4⟩ := hok
     have hsl : src < g.nodes.length := by omega
     exact ⟨hs, es, name, k, by rw [h.kindOf src hsl]; exact h1, h2, by rw [h.provOf src hsl]; exact h3, h4⟩
+  | defn name => rw [hk] at hok; exact hok
 
 /-! ### the derived lists when a node is appended -/
 
@@ -216,6 +218,7 @@ theorem instNodes_addNode (g g' : Graph) (nd : Node) (hn : g'.nodes = g.nodes ++
   cases hk : nd.kind with
   | imp _ => simp [hk]
   | alias _ _ => simp [hk]
+  | defn _ => simp [hk]
   | inst pkg => cases hp' : g.packages[pkg]? <;> simp [hk, hp']
 
 theorem filterMap_congr_mem {α β} (f g : α → Option β) (l : List α) (h : ∀ x ∈ l, f x = g x) :
